@@ -332,6 +332,10 @@ def generate(rng, tier):
         cases.append(gate_case(alg, qop, users, secret, timeout, method, path, query, agent, now + age, realm, requser, wire(hdr)))
     for i in range(2500 if big else 500):
         cases.append("C11 e2e %d" % rng.randrange(1 << 30))
+    # the rarer scenarios a fixed number of times each, so that no run goes without them
+    for sc in ("no-users-in-realm", "not-the-required-user", "suffix-uri", "foreign-nonce", "unknown-user", "nonce-age"):
+        for _ in range(40 if big else 12):
+            cases.append("C11 e2e %d %s" % (rng.randrange(1 << 30), sc))
     return cases
 
 
@@ -458,6 +462,8 @@ def oracle(case):
     scenario = rng.choice(["correct", "correct", "mutated", "mutated", "mutated", "nonce-age", "broken", "absent", "wrong-method",
                            "other-user", "suffix-uri", "foreign-nonce", "wrong-password", "unknown-user", "not-the-required-user",
                            "no-users-in-realm"])
+    if len(t) > 3:
+        scenario = t[3]
     if scenario == "no-users-in-realm":
         # the user table knows nothing of the endpoint's realm (no entry, an empty one, or other realms only)
         users = rng.choice([(), (("Other", "intruder", hexd(hfun, "intruder:Other:pw")),), ((realm + "2", user, hexd(hfun, "x")),)])
